@@ -68,8 +68,8 @@ def _plain_instance(n: int, rounds: int) -> dict:
             "st": gen_ttp.bundled_setting(n, rounds)}
 
 
-def _space_and_decoder(n: int, rounds: int, ic: dict | None
-                       ) -> tuple[Any, Any, Any]:
+def _space_and_decoder(n: int, rounds: int, ic: dict | None,
+                       layout: str = "C") -> tuple[Any, Any, Any]:
     """(search space, decode function, factory of destination plans)."""
     import numpy as np
     from moptipy.utils.nputils import int_range_to_dtype
@@ -89,7 +89,19 @@ def _space_and_decoder(n: int, rounds: int, ic: dict | None
     space = sut("search_space_for_n_and_rounds",
                 search_space_for_n_and_rounds, n, rounds)
     dtype = int_range_to_dtype(-n, n)
-    return space, map_games, lambda: np.empty((days, n), dtype)
+
+    def make_plan() -> Any:
+        # map_games is a public function: the destination may be any
+        # (days, n) integer array, whatever its memory layout
+        if layout == "F":
+            return np.empty((days, n), dtype, order="F")
+        if layout == "strided":  # e.g. one slot of a population array
+            return np.empty((2 * days, 2 * n), dtype)[::2, 1::2]
+        if layout == "slot":
+            return np.empty((days, n, 3), dtype)[:, :, 1]
+        return np.empty((days, n), dtype)
+
+    return space, map_games, make_plan
 
 
 def _decode(space: Any, decode: Any, make_plan: Any, perm: list[int],
@@ -187,8 +199,10 @@ def check_decode_all(ctx: Ctx, case: dict) -> None:
 
 def check_decode(ctx: Ctx, case: dict) -> None:
     n, rounds, shuffle = case["n"], case["rounds"], case["shuffle"]
+    layout = ("C", "F", "strided", "slot")[abs(int(case["garbage"])) % 4] \
+        if case.get("inst") is None else "C"
     space, decode, make_plan = _space_and_decoder(n, rounds,
-                                                  case.get("inst"))
+                                                  case.get("inst"), layout)
     bp = [int(v) for v in space.blueprint]
     if sorted(shuffle) != list(range(len(bp))):
         # the blueprint has another length than the property prescribes
@@ -199,6 +213,7 @@ def check_decode(ctx: Ctx, case: dict) -> None:
     got = _decode(space, decode, make_plan, perm, case["garbage"])
     dropped = _compare(n, rounds, perm, got)
     labels = [f"n={n}", "n odd" if n % 2 else "n even", f"rounds={rounds}",
+              f"dest_layout={layout}",
               "dropped=0" if dropped == 0 else (
                   "dropped=1..3" if dropped <= 3 else "dropped>3"),
               "games<=48" if len(bp) <= 48 else "games>48"]
@@ -220,7 +235,8 @@ def check_sizes(ctx: Ctx, case: dict) -> None:
     import numpy as np
     n, rounds = case["n"], 1
     ic = _plain_instance(n, rounds) if n % 2 == 0 else None
-    space, decode, make_plan = _space_and_decoder(n, rounds, ic)
+    space, decode, make_plan = _space_and_decoder(
+        n, rounds, ic, ("C", "F", "strided", "slot")[(n // 2) % 4])
     bp = [int(v) for v in space.blueprint]
     require(len(bp) == n * (n - 1) // 2, f"blueprint of length {len(bp)}")
     order = {"sorted": bp, "reversed": bp[::-1],
